@@ -241,19 +241,24 @@ struct Setup {
   iflag: u8,
   iov: usize,
   dma: Option<u8>,
+  /// clocks of device time that pass after the set-up writes (0 = none: devices at power-on)
+  advance: u32,
 }
 
 const IO_ORDER: [u16; 14] = [
   0xFF00, 0xFF07, 0xFF05, 0xFF06, 0xFF40, 0xFF41, 0xFF42, 0xFF43, 0xFF45, 0xFF47, 0xFF48, 0xFF49, 0xFF4A, 0xFF4B,
 ];
-const IO_VALUES: [[u8; 14]; 3] = [
+const IO_VALUES: [[u8; 14]; 4] = [
   [0x30, 0x00, 0x00, 0x00, 0x00, 0x00, 0x00, 0x00, 0x00, 0x00, 0x00, 0x00, 0x00, 0x00],
   [0x20, 0x05, 0x3C, 0xA7, 0x91, 0x48, 0x12, 0x34, 0x90, 0xE4, 0xD2, 0x1B, 0x77, 0x07],
   [0x10, 0x03, 0xFF, 0x5A, 0x6E, 0x30, 0xFE, 0x01, 0x2B, 0x1B, 0xFF, 0x00, 0x8F, 0xA6],
+  // display on, no STAT source selected, timer off: time may pass without any register changing
+  // on its own except LY and the STAT mode bits
+  [0x30, 0x00, 0x3C, 0xA7, 0x91, 0x00, 0x12, 0x34, 0x90, 0xE4, 0xD2, 0x1B, 0x77, 0x07],
 ];
 
 fn all_setups() -> Vec<Setup> {
-  let s = |name, cart_type, rom_code, ram_code, mbc, ie, iflag, iov, dma| Setup { name, cart_type, rom_code, ram_code, mbc, ie, iflag, iov, dma };
+  let s = |name, cart_type, rom_code, ram_code, mbc, ie, iflag, iov, dma| Setup { name, cart_type, rom_code, ram_code, mbc, ie, iflag, iov, dma, advance: 0 };
   vec![
     s("rom-only power-on", 0x00, 0x00, 0x00, [0x0A, 1, 0, 0], 0x00, 0x00, 0, None),
     s("rom-only ie=1f if=1f dma", 0x00, 0x00, 0x00, [0x0A, 1, 0, 0], 0x1F, 0x1F, 1, Some(0xC1)),
@@ -273,6 +278,11 @@ fn all_setups() -> Vec<Setup> {
     s("mbc1 72x16K 32K mode0 rom41 hi1", 0x03, 0x52, 0x03, [0x0A, 9, 1, 0], 0x00, 0x00, 1, None),
     s("mbc3 96x16K 32K rom45 ram1", 0x13, 0x54, 0x03, [0x0A, 45, 1, 0], 0x05, 0x02, 0, None),
     s("mbc1 80x16K 8K mode1 rom19 ", 0x03, 0x53, 0x02, [0x0A, 19, 0, 1], 0x1F, 0x11, 2, None),
+    // the display running (LCDC = 0x91) and the LCD controller standing inside a visible line:
+    // OAM search, pixel transfer, horizontal blank
+    Setup { advance: 4560 + 456 * 5 + 40, ..s("rom-only lcd on, line 5 mode 2", 0x00, 0x00, 0x00, [0x0A, 1, 0, 0], 0x00, 0x00, 3, None) },
+    Setup { advance: 4560 + 456 * 5 + 152, ..s("mbc1 4x16K 8K lcd on, line 5 mode 3", 0x03, 0x01, 0x02, [0x0A, 2, 0, 0], 0x03, 0x00, 3, None) },
+    Setup { advance: 4560 + 456 * 5 + 300, ..s("rom-only lcd on, line 5 mode 0", 0x00, 0x00, 0x00, [0x0A, 1, 0, 0], 0x1F, 0x00, 3, None) },
   ]
 }
 
@@ -422,6 +432,10 @@ fn build_core(env: &Env, sid: usize, w: &World) -> Box<Core> {
   let m = mp(&mut core);
   for (a, v) in w.writes.iter() {
     memory_write_byte(m, *a, *v);
+  }
+  let adv = env.setups[sid].advance;
+  if adv != 0 {
+    core.memory.run_clock_cycles(crate::timing::ClockCycles(adv as usize));
   }
   core
 }
@@ -873,7 +887,7 @@ pub fn run(tier: &str) -> i32 {
   rep.assume("echo RAM is judged as the statement words it (constant, ignores writes), not as a WRAM mirror");
 
   let setups = all_setups();
-  let active: Vec<usize> = if thorough { (0..setups.len()).collect() } else { vec![1, 5, 11, 14] };
+  let active: Vec<usize> = if thorough { (0..setups.len()).collect() } else { vec![1, 5, 11, 14, 18] };
   let values: Vec<u8> = if thorough { vec![0x00, 0x55, 0xAA, 0xFF, 0x0A, 0x80] } else { vec![0x55, 0xAA] };
   let mut images: Vec<Vec<u8>> = Vec::new();
   let mut paths: Vec<String> = Vec::new();
